@@ -31,6 +31,7 @@ fn main() {
         run.floor(&format!("rule '{rule}' evaluated"), run.observed("rule_evaluated", rule), 1);
     }
     run.floor("problems with vicinity clustering", run.observed("features", "clustering"), run.by_tier(20, 100));
+    run.floor("problems with a location which can be reached but not left (outgoing legs flagged unreachable)", run.observed("features", "unreachable-outgoing-only"), run.by_tier(10, 50));
     run.floor("relation phase exercised", run.observed("phase", "relations"), 1);
     run.floor("problems with two relations on one vehicle shift", run.observed_keys("relations_sharing_a_shift").iter().map(|k| run.observed("relations_sharing_a_shift", k)).sum(), run.by_tier(10, 100));
     run.floor("tightened-limits phase exercised", run.observed("phase", "tightened"), run.by_tier(5, 40));
